@@ -363,6 +363,10 @@ def pin_comparisons(ctx, inst, body, table):
         own = [h for h in hits if h[1] is body]
         if own:
             hits = own      # helpers are consulted only for a predicate the function itself no longer contains
+        elif any(hb is body and ((lp(r.a[0]) and rp(r.a[1])) or (lp(r.a[1]) and rp(r.a[0]))) for (_, r, _, hb) in roots):
+            # the function still compares these two operands, but not in the pinned sense (`<=` for `<`, operands swapped): that
+            # is the mutation this rule exists for, a helper that happens to hold the right form does not excuse it
+            hits = []
         ctx.check(len(hits) == 1, inst, "PIN", body.path, desc + " (found %d)" % len(hits), hits[0][1].where(hits[0][0]) if hits else None,
                   None if len(hits) == 1 else {"comparisons": [r.extra + "(" + r.a[0].show()[:40] + ", " + r.a[1].show()[:40] + ")" for (_, r, _, _) in roots][:12]})
 
